@@ -353,14 +353,36 @@ def trap_dict(g):
 
 def call_impl(c):
     import pypulseq as pp
+    old_default = pp.Opts.default
+    try:
+        return _call_impl(c)
+    finally:
+        if pp.Opts.default is not old_default:
+            old_default.set_as_default()
+
+
+class _OmitSystem(dict):
+    """keyword dict that drops `system`: the call then uses the library default"""
+
+
+def _call_impl(c):
+    import pypulseq as pp
     system = mk_sys(c['sys'])
     m = c['maker']
     use = use_str(c['use'])
+    # about one call in 12 goes through the LIBRARY DEFAULT: the case's system is installed with set_as_default() and the
+    # makers are called without a `system` argument (same expected result; exposes defaults bound at import time)
+    import hashlib as _h
+    omit = int(_h.sha1(repr(sorted((k, repr(v)) for k, v in c.items() if k != 'signal')).encode()).hexdigest()[:2], 16) < 21
+    sysarg = {'system': system}
+    if omit:
+        system.set_as_default()
+        sysarg = {}
     try:
         if m in ('sinc', 'gauss'):
             kw = dict(flip_angle=c['flip'], apodization=c['apod'], delay=c['delay'], duration=c['duration'], dwell=c['dwell'],
                       center_pos=c['center'], freq_offset=c['freq'], phase_offset=c['phase'], return_gz=c['rgz'],
-                      slice_thickness=c['thick'], system=system, time_bw_product=c['tbw'], use=use,
+                      slice_thickness=c['thick'], **sysarg, time_bw_product=c['tbw'], use=use,
                       max_grad=c['mg'], max_slew=c['ms'])
             if m == 'gauss':
                 kw['bandwidth'] = c['bw']
@@ -370,7 +392,7 @@ def call_impl(c):
         elif m == 'block':
             out = pp.make_block_pulse(flip_angle=c['flip'], delay=c['delay'], duration=c['duration'], bandwidth=c['bw'],
                                       time_bw_product=c['tbw'], freq_offset=c['freq'], phase_offset=c['phase'],
-                                      system=system, use=use)
+                                      **sysarg, use=use)
         elif m == 'arb':
             sig = np.array(c['signal'], dtype=float)
             if c.get('signal_im') is not None:
@@ -378,12 +400,12 @@ def call_impl(c):
             out = pp.make_arbitrary_rf(signal=sig, flip_angle=c['flip'], bandwidth=c['bw'], delay=c['delay'], dwell=c['dwell'],
                                        freq_offset=c['freq'], phase_offset=c['phase'], no_signal_scaling=c['noscale'],
                                        max_grad=c['mg'], max_slew=c['ms'], return_gz=c['rgz'], slice_thickness=c['thick'],
-                                       system=system, time_bw_product=c['tbw'], use=use)
+                                       **sysarg, time_bw_product=c['tbw'], use=use)
         else:
             out = pp.make_adiabatic_pulse(pulse_type=c['ptype'], bandwidth=c['bw'], beta=c['beta'], mu=c['mu'],
                                           delay=c['delay'], duration=c['duration'], dwell=c['dwell'], freq_offset=c['freq'],
                                           phase_offset=c['phase'], return_gz=c['rgz'], slice_thickness=c['thick'],
-                                          system=system, use=use)
+                                          **sysarg, use=use)
     except (ValueError, ZeroDivisionError, AssertionError) as e:
         return {'ok': False, 'err': classify(e)}
     except TypeError as e:
